@@ -11,9 +11,9 @@ import subprocess
 import sys
 import time
 
-VERIF = "/verif"
+VERIF = os.path.dirname(os.path.dirname(os.path.abspath(__file__)))
 REPO = "/repo"
-WORK = os.path.join(VERIF, ".work")
+WORK = os.environ.get("VERIF_WORK", os.path.join(VERIF, ".work"))
 SPEC = os.path.join(VERIF, "spec")
 MC = os.path.join(SPEC, "mc")
 HARNESS = os.path.join(VERIF, "harness")
@@ -118,7 +118,7 @@ def tlc(tag, module, cfg, workers=8, timeout=900, extra=None, env=None, java_opt
     meta = os.path.join(WORK, "tlc", tag)
     sh(["rm", "-rf", meta])
     out = os.path.join(WORK, "tlc", tag + ".out")
-    jopts = (java_opts or "-Xmx6g -XX:ParallelGCThreads=4 -Xss64m").split()
+    jopts = (java_opts or "-Xmx6g -XX:ParallelGCThreads=4 -Xss512m").split()
     cmd = ["java", "-XX:+UseParallelGC"] + jopts + [
         "-cp", TLA_CP + ":" + SPEC + ":" + MC, "tlc2.TLC",
         "-metadir", meta, "-noGenerateSpecTE", "-workers", str(workers),
